@@ -44,11 +44,19 @@ type lifeCfg struct {
 	Peers    int      `json:"peers"`
 	Reader   bool     `json:"reader"`
 	FullQ    bool     `json:"full_queue"`
+	// DyingPeers (with FullQ): the queue is filled with events whose handlers talk
+	// to the peers, and the peers' connections are then closed by their remotes:
+	// the peers are torn down while they cannot hand their last events over
+	DyingPeers bool `json:"dying_peers,omitempty"`
 	Dead     bool     `json:"already_dead"` // alpha scenarios: the loop has exited before the calls
 }
 
 func (c lifeCfg) String() string {
-	return fmt.Sprintf("ops=%v stop=%s@%d peers=%d reader=%v fullq=%v dead=%v", c.Ops, c.Cause, c.StopAt, c.Peers, c.Reader, c.FullQ, c.Dead)
+	dp := ""
+	if c.DyingPeers {
+		dp = " dying-peers"
+	}
+	return fmt.Sprintf("ops=%v stop=%s@%d peers=%d reader=%v fullq=%v dead=%v%s", c.Ops, c.Cause, c.StopAt, c.Peers, c.Reader, c.FullQ, c.Dead, dp)
 }
 
 type lifeScenario struct {
@@ -227,9 +235,23 @@ func runLife(t *testing.T, cfg lifeCfg) (out lifeOutcome) {
 			if cfg.FullQ {
 				// the stop cause first, then fillers until the queue is full:
 				// every later caller blocks in its send
-				stop()
+				if !cfg.DyingPeers {
+					stop()
+				}
 				for len(tor.Event) < cap(tor.Event) {
-					tor.Event <- peer.TorAnnounce{IPv6: false}
+					if cfg.DyingPeers {
+						tor.Event <- peer.TorPeerInterested{}
+					} else {
+						tor.Event <- peer.TorAnnounce{IPv6: false}
+					}
+				}
+				if cfg.DyingPeers {
+					for _, b := range s.remotes {
+						b.Close()
+					}
+					synctest.Wait()
+					time.Sleep(time.Second)
+					synctest.Wait()
 				}
 			}
 		}
@@ -252,6 +274,9 @@ func runLife(t *testing.T, cfg lifeCfg) (out lifeOutcome) {
 			synctest.Wait()
 		}
 		if !cfg.Dead && !cfg.FullQ && cfg.StopAt >= len(cfg.Ops) {
+			stop()
+		}
+		if cfg.DyingPeers && cfg.Cause != "none" {
 			stop()
 		}
 		if blocker != nil {
@@ -441,6 +466,9 @@ func verifLife(t *testing.T, prop string) {
 						judge(lifeCfg{Ops: []string{n}, StopAt: at, Cause: cause, Peers: peers, Reader: rd})
 					}
 					judge(lifeCfg{Ops: []string{n}, Cause: cause, Peers: peers, Reader: rd, FullQ: true})
+					if peers > 0 && !rd {
+						judge(lifeCfg{Ops: []string{n}, Cause: cause, Peers: peers, FullQ: true, DyingPeers: true})
+					}
 					judge(lifeCfg{Ops: []string{n}, Cause: cause, Peers: peers, Reader: rd, Dead: true})
 				}
 			}
